@@ -151,7 +151,7 @@ class Ctx(object):
         (``rule`` given): whatever the property relied on there is no longer
         performed."""
         if not cond:
-            if rule is not None:
+            if isinstance(rule, str):
                 self.fail(rule, func if func is not None else
                           'treadmill', None,
                           'the mechanism this clause is about is gone: %s' %
